@@ -254,7 +254,15 @@ def _grad_or_zeros(out, params, grad_outputs, create_graph):
                                 retain_graph=True,
                                 create_graph=create_graph,
                                 allow_unused=True)
-    return [torch.zeros_like(p) if g is None else g for (g, p) in zip(grads, params)]
+    grads = [torch.zeros_like(p) if g is None else g for (g, p) in zip(grads, params)]
+    # a tensor that is supplied in several places (e.g. twice in the params, or in
+    # the params and as a parameter of the object) gets its (total) derivative once
+    seen_ids = set()
+    for i, p in enumerate(params):
+        if id(p) in seen_ids:
+            grads[i] = torch.zeros_like(grads[i])
+        seen_ids.add(id(p))
+    return grads
 
 def _integrate(ffcn, xsamples, wsamples, fparams):
     nsamples = len(xsamples)
